@@ -12,6 +12,13 @@ from spellings import OPAQUE_KINDS, OUT_FORMAT, TRANSLUCENT_KINDS, spell
 MATCHERS = {}
 
 
+def regen_leaves():
+    """CmGen/Leaves.lean: the numeric functions of the source as they read now (the `source_*` theorems of
+    CmProps/C06tie.lean identify them with the model)"""
+    from translate import leaves
+    leaves.generate()
+
+
 def enc_out(out):
     if isinstance(out, tuple):
         return "t:%d,%d,%d" % out
@@ -34,7 +41,9 @@ def same_out(a, b):
 
 
 def check(run):
-    run.proof = proof_status("C06")
+    run.proof = proof_status("C06", regenerate=regen_leaves)
+    from translate import leaves as _leaves
+    run.extra["source_translation"] = _leaves.summary()
     q = run.quick()
     repo_import()
     run.rule = ("round trip: %s x formats {hex, rgb(), hsl(), tuple}, each output checked for shape, re-read by the "
